@@ -263,7 +263,7 @@ def balanced_arg(text, start):
 class SizeExpr:
     """a size expression of an allocation site -> Gallina term over the header's field names (all N)"""
     def __init__(self, text, consts):
-        self.toks = re.findall(r"[A-Za-z_][A-Za-z_0-9]*|\d[\d_]*|<<|[().+*,]", text)
+        self.toks = re.findall(r"[A-Za-z_][A-Za-z_0-9]*|\d[\d_]*|<<|::|[().+*,]", text)
         if "".join(self.toks) != re.sub(r"\s+", "", text):
             raise Shape("unsupported size expression %r" % text)
         self.i, self.consts, self.text = 0, consts, text
@@ -293,8 +293,15 @@ class SizeExpr:
             if not re.fullmatch(r"[a-z_]+", f):
                 raise Shape("unsupported size expression %r" % self.text)
             return f
-        if t in self.consts:
+        if t in self.consts and self.peek() != "::":
             return "%d" % self.consts[t]
+        # min(a, b) / cmp::min(a, b) / std::cmp::max(a, b) / usize::min(a, b)
+        name = t
+        while self.peek() == "::":
+            self.eat("::"); name = self.eat()
+        if name in ("min", "max") and self.peek() == "(":
+            self.eat("("); a = self.expr(); self.eat(","); b = self.expr(); self.eat(")")
+            return "(N.%s %s %s)" % (name, a, b)
         raise Shape("unsupported size expression %r (unknown name %s)" % (self.text, t))
 
     def postfix(self):
